@@ -146,7 +146,7 @@ def gen_dataset(rng, prob_dists, sizes=None):
 
 # results that are new representations (never the defining arrays): the caller may edit them freely
 SCRIBBLE_OK = {"to_density_matrix", "to_density_matrix_with_sparsity", "calc_eigenvalues", "matrices", "matrices_with_sparsity", "matrix", "matrix_with_sparsity",
-               "to_choi_matrix", "to_choi_matrix_with_dict", "to_choi_matrix_with_sparsity", "to_kraus_matrices", "to_process_matrix", "convert_to_comp_basis"}
+               "to_choi_matrix", "to_choi_matrix_with_dict", "to_choi_matrix_with_sparsity", "to_kraus_matrices", "to_process_matrix", "convert_to_comp_basis", "convert_basis"}
 # operations that depend on the lazily built composite-system tables
 CACHE_METHODS0 = {
     "state": ["to_density_matrix_with_sparsity", "calc_proj_ineq_constraint", "calc_proj_physical", "is_physical", "is_positive_semidefinite", "calc_eigenvalues"],
